@@ -6,6 +6,7 @@ import (
 	"fmt"
 	"os"
 	"strings"
+	"time"
 
 	"verif/harness/abs"
 	"verif/harness/exec"
@@ -60,6 +61,10 @@ func execOp(s *exec.State, ev abs.V) {
 	case "build":
 		if sc, ok := ev["scribbled"].(bool); ok && sc {
 			break // emitted by Scribble itself
+		}
+		if off, ok := ev["ntpnow"]; ok {
+			s.BuildNow(h, ev["v"], time.Duration(abs.I(off)))
+			break
 		}
 		if r, ok := ev["rebuild"].(bool); ok && r {
 			s.Rebuild(h, ev["v"])
@@ -139,6 +144,9 @@ func execOp(s *exec.State, ev abs.V) {
 		}
 		s.DatagramParts(abs.I(ev["b"]), h, parts)
 	case "udec":
+		if a, ok := ev["again"].(bool); ok && a {
+			break // emitted by the UnitDecode before it
+		}
 		if r, ok := ev["reuse"].(bool); ok && r {
 			s.UnitDecodeInto(ev["entry"].(string), abs.GoBytes(ev["prev"]), abs.I(ev["b"]))
 			break
